@@ -33,4 +33,4 @@ YOUR TASK: produce THREE different, independent, realistic source changes to the
   - change{{k}}.diff : the patch (unified diff, `git diff` output relative to the worktree HEAD, touching only files under discretisedfield/ and not the tests);
   - demo{{k}}.py : a small stand-alone program using only the public API that exits 0 on the unchanged library and exits non-zero (with an assertion message explaining the violated clause) when the change is applied;
   - note{{k}}.txt : two or three lines: what the change does, which clause of the property it breaks, what it needs in order to manifest.
-Procedure for each: make the change, run the demo (must fail), run the test suite (must pass as on the unchanged tree), save the diff, then `git checkout -- discretisedfield` to restore, run the demo again (must pass). Keep the worktree clean (apart from seeds/) when you finish. Report at the end, for each change: the files, the test-suite result line, and the demo outputs with and without the change.""")
+Procedure for each: make the change, run the demo (must fail), run the test suite (must pass as on the unchanged tree), save the diff, then `git checkout -- discretisedfield` to restore, run the demo again (must pass). Never use `git stash` (the stash is shared by all worktrees of the repository and other people work in sibling worktrees). Keep the worktree clean (apart from seeds/) when you finish. Report at the end, for each change: the files, the test-suite result line, and the demo outputs with and without the change.""")
